@@ -47,11 +47,15 @@ def _api():
     return bare_script, bare, lint_script, validate_script
 
 
-def load_diff(api):
+def load_diff(api, how='top-level'):
     bare_script, bare, _, _ = api
     g = {}
     options = {'globals': g, 'fetchFn': bare._fetch_include, 'systemPrefix': bare._FETCH_INCLUDE_PREFIX, 'maxStatements': 0, 'logFn': None}  # pylint: disable=protected-access
-    bare_script.execute_script(bare_script.parse_script('include <diff.bare>'), options)
+    text = {'top-level': 'include <diff.bare>',
+            # lazy loading: the include statement sits in a function body (it still runs in global scope)
+            'in-function': "function loadDiff(left, right, lines):\n    include <diff.bare>\n    return 1\nendfunction\nloadDiff('x', 'y', 'z')",
+            'in-loop': "for left in arrayNew(1):\n    if left:\n        include <diff.bare>\n    endif\nendfor"}[how]
+    bare_script.execute_script(bare_script.parse_script(text), options)
     fn = g.get('diffLines')
     return fn, options
 
@@ -192,6 +196,16 @@ def run_shard(spec, acc):
     if fn is None:
         acc.violation('diffLines-not-defined', 'include <diff.bare> did not bind diffLines', {})
         return
+    if spec['part'] == 'random' or spec.get('rem', 0) % 3 == 1:
+        # two shards out of three load the library lazily (include inside a function body / inside nested blocks)
+        how = 'in-function' if spec.get('shard', spec.get('rem', 0)) % 2 == 0 else 'in-loop'
+        fn2, options2 = load_diff(api, how)
+        acc.cover('library_loaded', how)
+        if fn2 is None:
+            acc.violation('diffLines-not-defined', f'include <diff.bare> executed {how} did not bind diffLines globally', {'how': how})
+            return
+        if spec['part'] == 'exhaustive' or spec['shard'] % 2 == 1:
+            fn, options = fn2, options2
     if spec['part'] == 'exhaustive':
         lists = list(all_lists(spec['maxlen']))
         ix = 0
@@ -234,6 +248,13 @@ def run_shard(spec, acc):
                 long_r = [f'R{k % 89}' for k in range(nr)] + tail
                 check_pair(long_l, long_r, rnd.choice(['array', 'lf']), fn, options, acc)
                 acc.count('long_disjoint_inputs')
+            if case_ix % 8 == 3:
+                # history: diffLines bound to a baseline with systemPartial and asked about several right sides in turn
+                sp = options['globals']['systemPartial']([fn, list(left)], options)
+                right_b = [w for w in right if rnd.random() < 0.7] + [rnd.choice(words)]
+                for rr in (right, right_b, list(left)):
+                    check_pair(left, rr, 'array', lambda args, o, sp=sp: sp([args[1]], o), options, acc)
+                acc.count('partial_application_histories')
             if rnd.random() < 0.3 and len(left) >= 3:
                 check_pair(left, right, 'mixed', fn, options, acc, chunk_seed=rnd.randint(0, 10 ** 6))
             if rnd.random() < 0.3:
